@@ -20,6 +20,7 @@ type c14params struct {
 	Len   int
 	Conns int
 	Real  bool // connections reach the broker as transport.BaseConn over a byte-stream view of the pipe
+	Small bool // session queues of capacity 2 and four retained QoS 1 messages: a wide subscription overflows the hostile peer's own queue
 }
 
 func init() {
@@ -240,6 +241,10 @@ func consumerAlphabet() []hostileItem {
 func hostile(x *explore.X, pr c14params) {
 	w := env.NewWorld(x, func(m *broker.MemoryBackend) {
 		m.SessionQueueSize = 32
+		if pr.Small {
+			m.SessionQueueSize = 2
+			m.ClientInflightMessages = 1
+		}
 		if pr.Mode == "consumer" {
 			m.ClientInflightMessages = 1
 		}
@@ -253,6 +258,12 @@ func hostile(x *explore.X, pr c14params) {
 	w2 := w.NewClient("w2")
 	w2.Connect(true, nil)
 	w.Run(w1, w2)
+	if pr.Small {
+		for i := 1; i <= 4; i++ {
+			w2.Pub(fmt.Sprintf("r/%d", i), fmt.Sprintf("retained%d", i), 1, true)
+			w.Run(w1, w2)
+		}
+	}
 	w1.TakeGot()
 	alpha := hostileAlphabet()
 	if pr.Mode == "consumer" {
@@ -515,6 +526,8 @@ func runC14(r *report.Report) {
 	r.AddExploration("hostile-sequences-over-baseconn", "history", fmt.Sprintf("the same sequences of %d hostile events with every connection a transport.BaseConn over a byte-stream view of the pipe (the real stream decoder sees the hostile bytes)", n), st, "as above", "hostile-sequence")
 	st = explore.Explore(explore.Config{Harness: "C14.run", Params: mk(c14params{Mode: "consumer", Len: cl, Real: true}), Bound: 0, Workers: report.Workers(), Deadline: r.Deadline()})
 	r.AddExploration("hostile-consumer-over-baseconn", "history", fmt.Sprintf("all sequences of %d misbehaving-consumer events (incl. stop-reading and keep-alive expiry) over transport.BaseConn: blocked writes, flush timer and send mutex are the real ones", cl), st, "as above, plus: nobody waits inside BaseConn.Close behind a blocked write", "hostile-sequence")
+	st = explore.Explore(explore.Config{Harness: "C14.run", Params: mk(c14params{Mode: "hostile", Len: n, Small: true}), Bound: 0, Workers: report.Workers(), Deadline: r.Deadline()})
+	r.AddExploration("hostile-sequences-small-queues", "history", fmt.Sprintf("the sequences of %d hostile events against a broker with session queues of capacity 2, window 1 and four retained QoS 1 messages (a wide subscription overflows the subscriber's own queue)", n), st, "as above", "hostile-sequence")
 	st = explore.Explore(explore.Config{Harness: "C14.run", Params: mk(c14params{Mode: "hostile", Len: 1}), Bound: 1, Workers: report.Workers(), Deadline: r.Deadline()})
 	r.AddExploration("hostile-single-reordered", "history", "every single hostile event with one scheduling deviation placed everywhere", st, "as above", "hostile-sequence")
 	b := 2
